@@ -424,3 +424,29 @@ where
 {
     FlatEx::<T>::parse(text)
 }
+
+// Verification hooks: re-exports only, no logic. Compiled only with `--cfg exmex_verif`.
+#[cfg(exmex_verif)]
+#[doc(hidden)]
+pub mod verif_hooks {
+    pub use crate::definitions::{
+        N_BINOPS_OF_DEEPEX_ON_STACK, N_NODES_ON_STACK, N_UNARYOPS_OF_DEEPEX_ON_STACK,
+        N_VARS_ON_STACK,
+    };
+    pub use crate::expression::deep::{prioritized_indices, BinOpVec, DeepNode};
+    pub use crate::expression::flat::verif_hooks::*;
+    pub use crate::expression::flat::{flatten_vecs, ExprIdxVec};
+    #[cfg(feature = "partial")]
+    pub use crate::expression::partial::check_partial_index;
+    pub use crate::expression::verif_number_tracker::NumberTracker;
+    pub use crate::expression::eval_binary;
+    pub use crate::operators::{
+        BinOpWithIdx, OperateBinary, UnaryFuncWithIdx, UnaryOp, VecOfUnaryFuncs,
+    };
+    pub use crate::parser::{
+        check_parsed_token_preconditions, find_parsed_vars, find_var_index, is_numeric_text,
+        is_operator_binary, tokenize_and_analyze, Paren, ParsedToken,
+    };
+    #[cfg(feature = "value")]
+    pub use crate::value::verif_hooks as value;
+}
